@@ -31,6 +31,29 @@ func TestNagaMSLExtra(t *testing.T) {
 			want: map[gb][]any{{0, 0}: wordsOf(float32(6), float32(20), float32(23), float32(-6))},
 		},
 		{
+			name: "swizzle of a binary expression, same size",
+			wgsl: outF + inF + `@compute @workgroup_size(1) fn main() {
+  let p = vec2<f32>(a[0], a[1]);       // (1, 2)
+  let q = vec2<f32>(a[2], a[3]);       // (3, 5)
+  let s = (p + q).yx;                  // (7, 4)
+  o[0] = s.x;
+  o[1] = (p - q)[1] + (-p).y;          // -3 - 2
+}`,
+			bufs: map[gb][]byte{{0, 0}: zeros(8), {0, 1}: f32s(1, 2, 3, 5)},
+			want: map[gb][]any{{0, 0}: wordsOf(float32(7), float32(-5))},
+		},
+		{
+			name: "swizzle of a binary expression, widening",
+			wgsl: outF + inF + `@compute @workgroup_size(1) fn main() {
+  let p = vec2<f32>(a[0], a[1]);       // (1, 2)
+  let q = vec2<f32>(a[2], a[3]);       // (3, 5)
+  let r = (p * q).xxyy;                // (3, 3, 10, 10)
+  o[0] = r.x + r.w;
+}`,
+			bufs: map[gb][]byte{{0, 0}: zeros(4), {0, 1}: f32s(1, 2, 3, 5)},
+			want: map[gb][]any{{0, 0}: wordsOf(float32(13))},
+		},
+		{
 			name: "integer division and remainder edge cases",
 			wgsl: outI + inI + `@compute @workgroup_size(1) fn main() {
   // WGSL: x / 0 = x, MIN / -1 = MIN, x % 0 = 0, MIN % -1 = 0, % takes the sign of the dividend
